@@ -1,6 +1,8 @@
 (* Dispatcher of C20: histories of FetchData/StoreCookie calls on one real Fetcher against
-   scripted TLS peers (ke.hist), NTP requests of the real client after a key exchange
-   (ke.target) and exchanges with the project's own key-exchange server (ke.own). *)
+   scripted TLS peers (ke.hist) or, with QUIC.Enabled, against scripted QUIC/SCION peers
+   (ke.quic: same case format, compared with the model of the QUIC branch), NTP requests of the
+   real client after a key exchange (ke.target) and exchanges with the project's own
+   key-exchange server (ke.own). *)
 From Coq Require Import ZArith List String Bool.
 From ST Require Import Base.Ints Base.Value Model.Ntske Model.NtskeOracle Model.NtskeRun Extract.GlueBase.
 Import ListNotations.
@@ -109,13 +111,14 @@ Fixpoint sent_ok (ops : list (op * bytes)) : bool :=
   | _ :: r => sent_ok r
   end.
 
-Definition run_hist (a o : list value) : option verdict :=
+(* quic: the Fetcher of the history has QUIC.Enabled *)
+Definition run_hist (quic : bool) (a o : list value) : option verdict :=
   match a, o with
   | [VL ops], [VL obs] =>
     match dec_ops ops, dec_obss obs with
     | Some ops', Some obs' =>
-      let expected := map enc_obs (model_run kzero (mops_of ops' obs')) in
-      let v := functional [VL expected] o (C20_ok (map fst ops') obs') in
+      let expected := map enc_obs (model_run quic kzero (mops_of ops' obs')) in
+      let v := functional [VL expected] o (C20_ok quic (map fst ops') obs') in
       Some (if sent_ok ops' then v
             else {| v_known := true; v_agree := false; v_oracle := v_oracle v; v_expected := [VZ (-1)] |})
     | _, _ => None
@@ -141,7 +144,7 @@ Fixpoint run_target (hostA hostB : bytes) (port2 : Z) (st : kdata) (steps obs : 
     | Some rs =>
       let sc := {| sc_mode := 0; sc_alpn := [ntske1]; sc_recs := rs; sc_tail := [];
                    sc_cut := length (wire rs); sc_host := hostA |} in
-      let '(st', o) := model_fetch dummy_exporter st sc in
+      let '(st', o) := model_fetch false dummy_exporter st sc in
       let d := o_data o in
       let exp_sink := if o_err o =? 0 then sink_index hostA hostB port2 (k_server d) (k_port d) else -1 in
       (* property: the server named (else the key-exchange host), the port named (else 123),
@@ -182,38 +185,15 @@ Definition glue_own (a o : list value) : option verdict :=
   | _, _ => None
   end.
 
-(* ---------- ke.quic (opt-in, C20_QUIC=1): the QUIC/SCION path, which is not modelled; only
-   the target clause of the property is evaluated (D-C20b is open in /repo) ---------- *)
-
-Fixpoint quic_ok (host : bytes) (steps obs : list value) : option bool :=
-  match steps, obs with
-  | [], [] => Some true
-  | VL recs :: steps', VL [VZ e; VB server; VZ port; VZ n] :: obs' =>
-    match dec_recs recs, quic_ok host steps' obs' with
-    | Some rs, Some okr =>
-      let a := scanned rs (length (wire rs)) in
-      Some (((negb (e =? 0)) || (bytes_eqb server (opt_bytes (a_server a) host) && (port =? opt_z (a_port a) 10123))) && okr)
-    | _, _ => None
-    end
-  | _, _ => None
-  end.
-
-Definition glue_quic (a o : list value) : option verdict :=
-  match a, o with
-  | [VB host; VL steps], [VL obs] =>
-    match quic_ok host steps obs with Some ok => Some (relational true ok) | None => None end
-  | _, _ => None
-  end.
-
 Definition glue_C20 (k : string) (a o : list value) : option verdict :=
   if is k "ke.hist" then
-    match run_hist a o with Some v => Some v | None => Some (relational false true) end
+    match run_hist false a o with Some v => Some v | None => Some (relational false true) end
   else if is k "ke.target" then
     match glue_target a o with Some v => Some v | None => Some (relational false true) end
   else if is k "ke.own" then
     match glue_own a o with Some v => Some v | None => Some (relational false true) end
   else if is k "ke.quic" then
-    match glue_quic a o with Some v => Some v | None => Some (relational false true) end
+    match run_hist true a o with Some v => Some v | None => Some (relational false true) end
   else None.
 
 Definition run_case (k : string) (a o : list value) : verdict := first_some [glue_C20] k a o.
